@@ -131,11 +131,17 @@ pub enum Value<'a> {
 }
 
 impl<'a> Value<'a> {
-    /// Clones the value, placing any array backing stores in the given arena.
-    /// Strings use zero-cost clone. Numbers/bools/null are trivial copies.
+    /// Clones the value, placing any array backing stores and owned strings in the
+    /// given arena. Borrowed strings (source literals, persistent data) are shared.
+    /// Numbers/bools/null are trivial copies.
     fn clone_into(&self, arena: &'a Arena) -> Self {
         match self {
-            Value::Str(cow) => Value::Str(cow.clone()),
+            // A pool slot or frame string can be recycled while this copy is still in
+            // use (`x add f()` where `f` reassigns `x`), so reads copy instead of aliasing.
+            Value::Str(ArenaCow::Owned(s)) => {
+                Value::Str(ArenaCow::Owned(ArenaString::from_str(arena, s.as_str())))
+            }
+            Value::Str(ArenaCow::Borrowed(s)) => Value::Str(ArenaCow::Borrowed(s)),
             Value::Number(n) => Value::Number(*n),
             Value::Bool(b) => Value::Bool(*b),
             Value::Host(host) => Value::Host(host.clone_into(arena)),
@@ -1704,9 +1710,10 @@ impl<'a> Runtime<'a> {
         frame: &Arena,
     ) {
         if has_frame {
-            let old = mem::replace(slot, Value::Null);
+            // Promote first: the new value may still read from the old slot's bytes.
+            let new = val.promote(pool, frame);
+            let old = mem::replace(slot, new);
             unsafe { old.return_to_pool(pool) };
-            *slot = val.promote(pool, frame);
         } else {
             *slot = val;
         }
